@@ -196,6 +196,36 @@ func classify(prop string, o *outcome) (nontrivial bool, feature uint64, classes
 		nontrivial = has("apply-definite-failure") || anyPrefix(f, "apply-ambiguous")
 	case "C11":
 		nontrivial = has("install-snapshot") || (anyPrefix(st, "snapshot@") && has("crash"))
+	case "C09":
+		nontrivial = has("verify") && (has("cutleader") || has("partition") || has("isolate"))
+		add(has("cutleader-keeps-nonvoters"), "leader-side-has-nonvoters")
+	case "C12":
+		nontrivial = has("quiet:restarted-server") || has("stale-suffix-built") || has("lagging-follower-behind-compaction") || has("install-snapshot") || (has("membership-ok") && fault)
+		add(has("stale-suffix-built"), "stale-suffix")
+		add(has("lagging-follower-behind-compaction"), "lagging-follower-behind-compaction")
+	case "C13":
+		if r.P.Profile == "leaselong" {
+			nontrivial = o.virtual >= 100*int64(r.P.HBms[0]/r.P.LeaseDiv)
+			add(true, "long-fault-free-run")
+		} else {
+			nontrivial = has("cutleader-keeps-a-peer") && has("lease-stepdown")
+			add(has("cutleader-keeps-nonvoters"), "leader-side-has-nonvoters")
+			add(has("lease-stepdown"), "lease-stepdown")
+		}
+	case "C14":
+		nontrivial = has("isolation>=5-election-timeouts") && has("rejoin")
+		add(has("rejoined-as-follower"), "rejoined-as-follower")
+	case "C17":
+		nontrivial = has("shutdown") || has("cutleader") || has("calls-after-shutdown")
+		add(has("calls-after-shutdown"), "calls-after-shutdown")
+		add(has("shutdown"), "shutdown")
+	case "C18":
+		nontrivial = has("notify:>=3-transitions")
+		add(has("slowconsumer"), "slow-consumer")
+	case "C20":
+		nontrivial = has("user-restore-snapshot") && (has("aborted-by-restore") || has("install-snapshot") || fault)
+		add(has("aborted-by-restore"), "in-flight-aborted-by-restore")
+		add(has("user-restore-ok"), "user-restore-ok")
 	default:
 		nontrivial = fault
 	}
@@ -236,6 +266,15 @@ func runProfile(t *testing.T, prop, profile string) {
 		if nt && r.WantSample() {
 			r.Sample(map[string]any{"program": p.Brief(), "leaders": o.r.W.O.LeaderSeq, "virtual_ms": o.virtual, "client_ops": len(o.r.Ops), "stats": o.r.W.O.Stats})
 		}
+		o.r.W.Mu.Lock()
+		tainted := o.r.W.O.Tainted()
+		o.r.W.Mu.Unlock()
+		if tainted {
+			// a user Restore replaced a server's state without completing:
+			// excluded by construction, counted
+			r.Class("excluded:restore-did-not-complete", 1)
+			return
+		}
 		var fresh []sim.Violation
 		for _, v := range o.viol {
 			if _, ok := known[v.Property+" "+v.Sig]; ok {
@@ -267,6 +306,23 @@ func runProfile(t *testing.T, prop, profile string) {
 }
 
 func TestClusterSafety(t *testing.T) { runProfile(t, envOr("VERIF_PROP", "C01"), "safety") }
+
+// one check per property; every oracle runs in every profile
+func TestC01(t *testing.T)     { runProfile(t, "C01", "election") }
+func TestC02(t *testing.T)     { runProfile(t, "C02", "snapshot") }
+func TestC03(t *testing.T)     { runProfile(t, "C03", "durability") }
+func TestC05(t *testing.T)     { runProfile(t, "C05", "commit") }
+func TestC07(t *testing.T)     { runProfile(t, "C07", "membership") }
+func TestC08(t *testing.T)     { runProfile(t, "C08", "clients") }
+func TestC09(t *testing.T)     { runProfile(t, "C09", "verify") }
+func TestC11(t *testing.T)     { runProfile(t, "C11", "snapshot") }
+func TestC12(t *testing.T)     { runProfile(t, "C12", "converge") }
+func TestC13(t *testing.T)     { runProfile(t, "C13", "lease") }
+func TestC13Long(t *testing.T) { runProfile(t, "C13", "leaselong") }
+func TestC14(t *testing.T)     { runProfile(t, "C14", "prevote") }
+func TestC17(t *testing.T)     { runProfile(t, "C17", "futures") }
+func TestC18(t *testing.T)     { runProfile(t, "C18", "notify") }
+func TestC20(t *testing.T)     { runProfile(t, "C20", "restore") }
 
 func envOr(k, d string) string {
 	if v := os.Getenv(k); v != "" {
